@@ -69,6 +69,12 @@ func c04Gen(c *vfCtx, emit func(c04Case)) {
 				}
 			})
 		}
+		// entries larger than reader/writer buffers: grown, shrunk, and left alone next to a rewritten neighbour
+		for _, b := range vfBigValues() {
+			emit(c04Case{API: "snap", Mode: mode, Entries: []c04Entry{{Test: "TestA", Old: "a", New: b}, {Test: "TestA", Old: b, New: "a"}, {Test: "TestB", Old: b, New: b}}})
+			emit(c04Case{API: "snap", Mode: mode, Entries: []c04Entry{{Test: "TestA", Old: b, New: b}, {Test: "TestB", Old: "a", New: "b"}, {Test: "TestA", Old: b, New: b + "!"}}})
+			emit(c04Case{API: "ssnap", Mode: mode, Entries: []c04Entry{{Test: "TestA", Old: b, New: "short"}, {Test: "TestA", Old: "short", New: b}}})
+		}
 		// standalone files: whole-file replacement, long -> short, CR included
 		svals := []string{"a", "", "b", "a\nb\nc", "---", "a\r\n", "\xff", "$1%d", "[TestA - 1]", strings.Repeat("long", 50)}
 		for _, o := range svals {
